@@ -19,6 +19,17 @@ HOOKS = {
 }
 
 PROPS = {
+    "C07": {
+        "bin": "c07",
+        "explanation": "Periodic boundary with extrapolation, mode R on the concrete axis family with symbolic periodic data: (1) the specification's wrap w(q) = x0 + rem_euclid(q - x0, P) maps x + kP to x for an "
+                       "UNBOUNDED integer k (cvc5, mixed integer/real arithmetic); (2) on a grid of concrete abscissae (every knot, 3 interior points per interval, k in {-3,-1,1,2}) S_ext(x + kP) = S(x) is decided "
+                       "for all data values, and for a symbolic out-of-range query the extrapolating interpolator returns the same recorded term as a non-extrapolating one queried at w(q) inside the same execution "
+                       "(same hash-consed node, or a solver query); (3) periodic images of both range ends evaluate to y_0. Mode O: no non-NaN query is rejected or panics.",
+        "trusted_base": R_TRUST + ["cvc5 1.0 (primary solver for the integer/real wrap obligations; z3 does not decide them)"],
+        "technique": "symbolic execution at a term-recording scalar + cvc5/z3: unbounded-integer wrap arithmetic (QF_LIRA), term identity / QF_NRA for evaluation at the wrapped argument, QF_LRA on a concrete query grid for all data",
+        "level_text": "Bounded symbolic model checking: periodicity is decided for every integer period count in the wrap arithmetic, for all data values on the concrete query grid, and for all real queries whenever the implementation wraps the way the specification does (term identity). Symbolic-query obligations the solvers leave undecided are reported inconclusive, never passed.",
+        "level_note": "Trusted: engine S, cvc5, z3. Real-number semantics: 'up to rounding of the wrapped argument' is not decided. Concrete axis family, n <= 5 quick / 7 thorough. Infinite queries excluded (the property speaks of finite queries).",
+    },
     "C05": {
         "bin": "c05",
         "explanation": "Bounded symbolic checking in mode O of every non-extrapolating strategy (Linear, five CubicSpline boundary selections incl. Periodic, Bilinear) behind every "
